@@ -133,20 +133,23 @@ class Graph:
                 s["virtual"] = s["dtor"] = False
             for f in range(r.randrange(0, 5)):
                 x = r.random()
-                if x < 0.35:
-                    ty = r.choice(self.SCAL + [t[0] for t in self.typedefs])
+                if x < 0.30:
+                    ty = r.choice(self.SCAL + ["float", "double"] + [t[0] for t in self.typedefs])
                     s["fields"].append((ty, "f%d" % f, ""))
-                elif x < 0.55 and self.structs:
+                elif x < 0.45 and self.structs:
                     o = r.choice(self.structs)["name"]
                     s["fields"].append(("%s *" % o if r.random() < 0.5 else "S%d *" % r.randrange(self.n), "f%d" % f, ""))
-                elif x < 0.75 and self.structs:
+                elif x < 0.65 and self.structs:
                     o = r.choice(self.structs)["name"]
                     s["fields"].append((o, "f%d" % f, ""))
                     s["needs"].add(o)
-                elif x < 0.85:
+                elif x < 0.72:
                     s["fields"].append((r.choice(self.SCAL), "f%d" % f, "[%d]" % r.choice([2, 33, 40])))
                 elif self.has_tmpl:
-                    arg = r.choice(self.SCAL + [x["name"] for x in self.structs])
+                    # named arguments (earlier records, so lower item ids than the instantiation) are what makes the
+                    # visiting order matter for facts that flow through template arguments
+                    named = [x["name"] for x in self.structs]
+                    arg = r.choice(named) if named and r.random() < 0.6 else r.choice(self.SCAL)
                     s["fields"].append(("T0<%s>" % arg, "f%d" % f, ""))
                     if arg.startswith("S"):
                         s["needs"].add(arg)
